@@ -74,8 +74,9 @@ pub fn rstr(rng: &mut Rng) -> Vec<u8> {
 }
 fn rval(rng: &mut Rng) -> Vec<u8> { if rng.chance(1, 4) { rng.bytes(rng.clone().below(6) as usize) } else { rstr(rng) } }
 fn rvals(rng: &mut Rng, allow_empty: bool) -> Vec<Vec<u8>> {
-    let n = if allow_empty && rng.chance(1, 6) { 0 } else { 1 + rng.below(4) as usize };
-    let mut v: Vec<Vec<u8>> = (0..n).map(|i| { let mut x = rval(rng); x.push(b'0' + i as u8); x }).collect(); v.dedup(); v
+    // now and then a large value list (the SET OF then needs a 2-octet length)
+    let n = if allow_empty && rng.chance(1, 6) { 0 } else if rng.chance(1, 40) { 60 + rng.below(200) as usize } else { 1 + rng.below(4) as usize };
+    let mut v: Vec<Vec<u8>> = (0..n).map(|i| { let mut x = rval(rng); x.push(b'#'); x.extend(i.to_string().as_bytes()); x }).collect(); v.dedup(); v
 }
 pub fn rand_mods(rng: &mut Rng) -> Mods {
     Mods {
@@ -89,7 +90,7 @@ pub fn rand_op(rng: &mut Rng) -> Op {
     let filters: &[&[u8]] = &[b"(objectClass=*)", b"(&(cn=a*)(!(sn=b)))", b"(cn:dn:2.5.13.5:=x)", b"uid=j\\2a", b"(|(a>=1)(b<=2)(c~=3))", b"(broken", b"(cn=\xc3\xa9)"];
     match rng.below(14) {
         0 => Op::Bind(rstr(rng), rstr(rng)), 1 => Op::Sasl,
-        2 | 3 => Op::Search(rstr(rng), rng.below(3) as i64, rng.pick(filters).to_vec(), (0..rng.below(4)).map(|_| rng.pick(&[&b"cn"[..], b"*", b"+", b"1.1", b"mail"]).to_vec()).collect()),
+        2 | 3 => Op::Search(rstr(rng), rng.below(3) as i64, rng.pick(filters).to_vec(), (0..if rng.chance(1, 30) { 150 } else { rng.below(4) }).map(|_| rng.pick(&[&b"cn"[..], b"*", b"+", b"1.1", b"mail"]).to_vec()).collect()),
         4 => Op::Add(rstr(rng), (0..rng.below(4)).map(|i| (format!("a{}", i).into_bytes(), rvals(rng, true))).collect()),
         5 => Op::Compare(rstr(rng), b"cn".to_vec(), rval(rng)), 6 => Op::Delete(rstr(rng)),
         7 | 8 => Op::Modify(rstr(rng), (0..rng.below(5)).map(|i| { let k = rng.below(4) as i64; (k, format!("m{}", i).into_bytes(), if k == 3 { vec![b"1".to_vec()] } else { rvals(rng, true) }) }).collect()),
